@@ -762,27 +762,129 @@ Proof.
   split; [vm_compute; reflexivity|]. split; [vm_compute; reflexivity|discriminate].
 Qed.
 
-(** ** AdvertisingDevicesDB.on_device_found over sequences of advertisements *)
+(** ** AdvertisingDevicesDB.on_device_found over timed sequences of advertisements *)
+
+Definition key (d : device) : N * bool := (d_addr d, d_reported d).
+
+Lemma check_timeout_addr now d : d_addr (check_timeout now d) = d_addr d.
+Proof. unfold check_timeout. destruct (d_scanned d); [|destruct (timed_out now d)]; reflexivity. Qed.
+Lemma check_timeout_adv now d : d_adv (check_timeout now d) = d_adv d.
+Proof. unfold check_timeout. destruct (d_scanned d); [|destruct (timed_out now d)]; reflexivity. Qed.
+Lemma check_timeout_rsp now d : d_rsp (check_timeout now d) = d_rsp d.
+Proof. unfold check_timeout. destruct (d_scanned d); [|destruct (timed_out now d)]; reflexivity. Qed.
+Lemma check_timeout_got now d : d_got (check_timeout now d) = d_got d.
+Proof. unfold check_timeout. destruct (d_scanned d); [|destruct (timed_out now d)]; reflexivity. Qed.
+Lemma check_timeout_reported now d : d_reported (check_timeout now d) = d_reported d.
+Proof. unfold check_timeout. destruct (d_scanned d); [|destruct (timed_out now d)]; reflexivity. Qed.
+Lemma check_timeout_key now d : key (check_timeout now d) = key d.
+Proof. unfold key. rewrite check_timeout_addr, check_timeout_reported. reflexivity. Qed.
+
+Lemma set_scan_rsp_key l d : key (set_scan_rsp l d) = key d.
+Proof. unfold set_scan_rsp. destruct (d_got d); reflexivity. Qed.
+
+Lemma map_key_update a f db : (forall d, key (f d) = key d) -> map key (update_dev a f db) = map key db.
+Proof.
+  intros H. unfold update_dev. rewrite map_map. apply map_ext. intros d.
+  destruct (d_addr d =? a); [apply H|reflexivity].
+Qed.
+
+Lemma map_addr_key db : map d_addr db = map fst (map key db).
+Proof. rewrite map_map. reflexivity. Qed.
+
+Lemma find_dev_none a db : find_dev a db = None -> ~ In a (map d_addr db).
+Proof.
+  unfold find_dev. intros H Hin. apply in_map_iff in Hin as (d & Ha & Hd).
+  pose proof (find_none _ _ H d Hd) as E. cbn in E. rewrite Ha, N.eqb_refl in E. discriminate.
+Qed.
+
+Lemma find_dev_addr a db d : find_dev a db = Some d -> d_addr d = a.
+Proof. unfold find_dev. intros H. apply find_some in H as [_ H]. apply N.eqb_eq in H. exact H. Qed.
+
+(** the sweep, in closed form *)
+Lemma due_check now d :
+  d_scanned (check_timeout now d) && negb (d_reported (check_timeout now d)) = due now d.
+Proof.
+  unfold due. rewrite check_timeout_reported. unfold check_timeout.
+  destruct (d_scanned d) eqn:S; [rewrite S; reflexivity|].
+  destruct (timed_out now d) eqn:T; cbn [set_scanned d_scanned]; [reflexivity|rewrite S; reflexivity].
+Qed.
+
+Lemma timeouts_spec now db :
+  timeouts now db
+  = (map (fun d => if due now d then mark_reported (check_timeout now d) else check_timeout now d) db,
+     map d_addr (filter (due now) db)).
+Proof.
+  induction db as [|d db IH]; [reflexivity|]. cbn [timeouts map filter]. rewrite IH, due_check.
+  destruct (due now d); reflexivity.
+Qed.
+
+(** after the sweep nothing is due any more *)
+Lemma swept_not_due now d :
+  due now (if due now d then mark_reported (check_timeout now d) else check_timeout now d) = false.
+Proof.
+  destruct (due now d) eqn:E.
+  - unfold due. cbn [mark_reported d_reported negb]. apply andb_false_r.
+  - unfold due in *. rewrite check_timeout_reported. unfold check_timeout, timed_out in *.
+    destruct (d_scanned d) eqn:S; destruct (500 <? now - d_ts d) eqn:T; destruct (d_reported d) eqn:R;
+      cbn [set_scanned d_scanned d_ts d_reported orb andb negb] in *;
+      rewrite ?S, ?T, ?R; cbn [orb andb negb]; try reflexivity; try discriminate.
+Qed.
+
+Lemma NoDup_app_intro {A} (a b : list A) :
+  NoDup a -> NoDup b -> (forall x, In x a -> In x b -> False) -> NoDup (a ++ b).
+Proof.
+  induction a as [|x a IH]; intros Ha Hb Hd; [exact Hb|]. cbn [app].
+  inversion Ha as [|? ? Hx Ha']; subst. constructor.
+  - intro Hin. apply in_app_or in Hin as [Hin|Hin]; [exact (Hx Hin)|exact (Hd x (or_introl eq_refl) Hin)].
+  - apply IH; [exact Ha'|exact Hb|]. intros y Hy. apply Hd. right. exact Hy.
+Qed.
+
+Lemma NoDup_snoc {A} (l : list A) (a : A) : NoDup l -> ~ In a l -> NoDup (l ++ [a]).
+Proof.
+  intros Hl Ha. apply NoDup_app_intro; [exact Hl|repeat constructor; intros []|].
+  intros x Hx [<-|[]]. exact (Ha Hx).
+Qed.
+
+Definition add_new (acc : list N) (y : N) : list N := if memN y acc then acc else acc ++ [y].
+
+Lemma fold_add_new_keeps l : forall acc v, In v acc -> In v (fold_left add_new l acc).
+Proof.
+  induction l as [|w l IHl]; intros acc v Hv; [exact Hv|]. cbn [fold_left]. apply IHl.
+  unfold add_new. destruct (memN w acc); [exact Hv|apply in_or_app; left; exact Hv].
+Qed.
+
+Lemma fold_add_new_adds ys : forall acc y, In y ys -> In y (fold_left add_new ys acc).
+Proof.
+  induction ys as [|z ys IH]; intros acc y Hy; [destruct Hy|]. cbn [fold_left].
+  destruct Hy as [<-|Hy]; [|apply IH, Hy]. apply fold_add_new_keeps.
+  unfold add_new. destruct (memN z acc) eqn:M.
+  - unfold memN in M. apply existsb_exists in M as (v & Hv & E). apply N.eqb_eq in E. subst v. exact Hv.
+  - apply in_or_app. right. left. reflexivity.
+Qed.
 
 Section ScanProofs.
 Variable urlnorm : text -> url_result.
-Variable filter : option N.
+Variable flt : option N.
 Variable updates : bool.
 
-Lemma parse_adv_ok data : wf_bytes data = true ->
-  exists o, parse_adv urlnorm data = Ok o /\ (forall l, o = Some l -> from_bytes urlnorm data = Ok l).
+Lemma parse_adv_ok data : wf_bytes data = true -> exists o, parse_adv urlnorm data = Ok o.
 Proof.
   intros W. destruct (parser_total urlnorm data W) as [Hle Hgt]. unfold parse_adv.
   destruct (Nat.le_gt_cases (length data) 31) as [L|G].
-  - destruct (Hle L) as [[l ->]| ->].
-    + exists (Some l). split; [reflexivity|]. intros l' E. inversion E; reflexivity.
-    + exists None. split; [reflexivity|]. discriminate.
-  - rewrite (Hgt G). exists None. split; [reflexivity|]. discriminate.
+  - destruct (Hle L) as [[l ->]| ->]; eauto.
+  - rewrite (Hgt G). eauto.
 Qed.
 
-Lemma handle_ok db ev : wf_bytes (ev_data ev) = true -> exists r, handle urlnorm filter updates db ev = Ok r.
+Lemma parse_adv_some data l : parse_adv urlnorm data = Ok (Some l) -> from_bytes urlnorm data = Ok l.
 Proof.
-  intros W. destruct (parse_adv_ok _ W) as (o & Ho & _). unfold handle. rewrite Ho. cbn [bind].
+  unfold parse_adv. destruct (from_bytes urlnorm data) as [l'|e]; [intros H; inversion H; reflexivity|].
+  destruct e; discriminate.
+Qed.
+
+Lemma handle_ok now db ev : wf_bytes (ev_data ev) = true ->
+  exists r, handle urlnorm flt updates now db ev = Ok r.
+Proof.
+  intros W. destruct (parse_adv_ok _ W) as (o & Ho). unfold handle. rewrite Ho. cbn [bind].
   destruct (ev_pdu ev); destruct o as [l|];
     repeat match goal with
     | |- exists r, (if ?c then _ else _) = Ok r => destruct c
@@ -791,30 +893,30 @@ Proof.
     end; eauto.
 Qed.
 
-Lemma on_device_found_ok db ev : wf_bytes (ev_data ev) = true ->
-  exists r, on_device_found urlnorm filter updates db ev = Ok r.
+Lemma on_device_found_ok now db ev : wf_bytes (ev_data ev) = true ->
+  exists r, on_device_found urlnorm flt updates now db ev = Ok r.
 Proof.
-  intros W. unfold on_device_found. destruct (handle_ok db ev W) as [r ->]. cbn [bind].
-  destruct (timeouts (fst r)). eauto.
+  intros W. unfold on_device_found. destruct (handle_ok now db ev W) as [r ->]. cbn [bind].
+  destruct (timeouts now (fst r)). eauto.
 Qed.
 
-(** scanning survives ANY sequence of advertisements *)
-Lemma scan_never_raises evs : forall db,
+(** scanning survives ANY timed sequence of advertisements *)
+Lemma scan_never_raises evs : forall clock db,
   Forall (fun ev => wf_bytes (ev_data ev) = true) evs ->
-  exists r, scan urlnorm filter updates db evs = Ok r.
+  exists r, scan urlnorm flt updates clock db evs = Ok r.
 Proof.
-  induction evs as [|ev evs IH]; intros db H; cbn [scan]; [eauto|].
+  induction evs as [|ev evs IH]; intros clock db H; cbn [scan]; [eauto|].
   inversion H as [|? ? W Hr]; subst.
-  destruct (on_device_found_ok db ev W) as [x ->]. cbn [bind].
-  destruct (IH (fst x) Hr) as [y ->]. cbn [bind]. eauto.
+  destruct (on_device_found_ok (clock + ev_dt ev) db ev W) as [x ->]. cbn [bind].
+  destruct (IH (clock + ev_dt ev) (fst (fst x)) Hr) as [y ->]. cbn [bind]. eauto.
 Qed.
 
 (** malformed records never change the database *)
-Lemma malformed_ignored db ev :
-  parse_adv urlnorm (ev_data ev) = Ok None -> handle urlnorm filter updates db ev = Ok (db, []).
+Lemma malformed_ignored now db ev :
+  parse_adv urlnorm (ev_data ev) = Ok None -> handle urlnorm flt updates now db ev = Ok (db, []).
 Proof. intros H. unfold handle. rewrite H. cbn [bind]. destruct (ev_pdu ev); reflexivity. Qed.
 
-(** what is stored for an address is what was parsed from advertisements of that address *)
+(** *** what is stored for an address is what was parsed from advertisements of that address *)
 Definition is_adv (p : pdu) : bool := match p with AdvInd | AdvNonconn => true | _ => false end.
 Definition dev_ok (seen : list event) (d : device) : Prop :=
   (exists e, In e seen /\ is_adv (ev_pdu e) = true /\ ev_addr e = d_addr d
@@ -833,6 +935,16 @@ Proof.
   split; [exact G|]. exists e'. split; [apply I, He'|exact H3].
 Qed.
 
+Lemma dev_ok_ext seen d d' :
+  d_addr d' = d_addr d -> d_adv d' = d_adv d -> d_rsp d' = d_rsp d -> d_got d' = d_got d ->
+  dev_ok seen d -> dev_ok seen d'.
+Proof. unfold dev_ok. intros -> -> -> ->. tauto. Qed.
+
+Lemma dev_ok_check_timeout seen now d : dev_ok seen d -> dev_ok seen (check_timeout now d).
+Proof.
+  apply dev_ok_ext; [apply check_timeout_addr|apply check_timeout_adv|apply check_timeout_rsp|apply check_timeout_got].
+Qed.
+
 Lemma Forall_update_dev (P : device -> Prop) a f db :
   Forall P db -> (forall d, P d -> d_addr d = a -> P (f d)) -> Forall P (update_dev a f db).
 Proof.
@@ -841,91 +953,225 @@ Proof.
   destruct (N.eqb_spec (d_addr d) a); [apply Hf; [apply H, Hd|assumption]|apply H, Hd].
 Qed.
 
-Lemma timeouts_ok seen db : Forall (dev_ok seen) db -> Forall (dev_ok seen) (fst (timeouts db)).
+Lemma timeouts_ok seen now db :
+  Forall (dev_ok seen) db -> Forall (dev_ok seen) (fst (timeouts now db)).
 Proof.
-  induction 1 as [|d db Hd _ IH]; cbn [timeouts]; [constructor|].
-  destruct (timeouts db) as [r' ys]. cbn [fst] in IH.
-  destruct (d_scanned d && negb (d_reported d)); cbn [fst]; constructor; try assumption; exact Hd.
+  intros H. rewrite timeouts_spec. cbn [fst]. apply Forall_forall. intros x Hx.
+  apply in_map_iff in Hx as (d & <- & Hd). rewrite Forall_forall in H. specialize (H d Hd).
+  destruct (due now d); [|apply dev_ok_check_timeout, H].
+  apply (dev_ok_ext seen (check_timeout now d)); try reflexivity. apply dev_ok_check_timeout, H.
 Qed.
 
-Lemma find_dev_addr a db d : find_dev a db = Some d -> d_addr d = a.
-Proof. unfold find_dev. intros H. apply find_some in H as [_ H]. apply N.eqb_eq in H. exact H. Qed.
+Lemma register_inv seen now db d u db' r :
+  Forall (dev_ok seen) db -> dev_ok seen d -> register now db d u = (db', r) -> Forall (dev_ok seen) db'.
+Proof.
+  intros H Hd Hr. unfold register in Hr. destruct (find_dev (d_addr d) db) as [dev|].
+  - destruct (d_rssi dev =? d_rssi d); inversion Hr; subst; (apply Forall_update_dev; [exact H|]); intros x Hx _.
+    + exact Hx.
+    + apply dev_ok_check_timeout. exact Hx.
+  - inversion Hr; subst. apply Forall_app. split; [exact H|]. constructor; [exact Hd|constructor].
+Qed.
 
-Lemma handle_inv seen db ev r :
-  Forall (dev_ok seen) db -> handle urlnorm filter updates db ev = Ok r ->
+Lemma handle_inv seen now db ev r :
+  Forall (dev_ok seen) db -> handle urlnorm flt updates now db ev = Ok r ->
   Forall (dev_ok (seen ++ [ev])) (fst r).
 Proof.
   intros H Hh.
   assert (Hm : Forall (dev_ok (seen ++ [ev])) db).
   { eapply Forall_impl; [|exact H]. intros d. apply dev_ok_mono. apply incl_appl, incl_refl. }
   assert (Hin : In ev (seen ++ [ev])) by (apply in_or_app; right; left; reflexivity).
-  unfold handle in Hh. unfold parse_adv in Hh.
-  assert (ADV : forall conn p, ev_pdu ev = p -> is_adv p = true ->
-    (o <- match from_bytes urlnorm (ev_data ev) with
-          | Ok l => Ok (Some l) | Raise AdvDataError => Ok None
-          | Raise AdvDataFieldListOverflow => Ok None | Raise e => Raise e end ;;
-     match o with
-     | Some l =>
-        if filter_is filter (ev_addr ev) || filter_none filter
-        then let '(db', r0) := register db {| d_addr := ev_addr ev; d_type := ev_txadd ev; d_rssi := ev_rssi ev;
-                                             d_adv := l; d_rsp := None; d_got := false; d_conn := conn;
-                                             d_scanned := false; d_reported := false |} updates in
-             Ok (db', if r0 && updates then [ev_addr ev] else [])
-        else Ok (db, [])
-     | None => Ok (db, [])
-     end) = Ok r -> Forall (dev_ok (seen ++ [ev])) (fst r)).
-  { intros conn p Ep Ap Hr.
-    destruct (from_bytes urlnorm (ev_data ev)) as [l|e] eqn:Ef.
-    - cbn [bind] in Hr. destruct (filter_is filter (ev_addr ev) || filter_none filter).
-      + unfold register in Hr. cbn [d_addr d_rssi] in Hr.
-        destruct (find_dev (ev_addr ev) db) as [dev|].
-        * destruct (d_rssi dev =? ev_rssi ev); inversion Hr; subst; cbn [fst]; [exact Hm|].
-          apply Forall_update_dev; [exact Hm|]. intros d Hd _. exact Hd.
-        * inversion Hr; subst; cbn [fst]. apply Forall_app. split; [exact Hm|].
-          constructor; [|constructor]. split; cbn [d_addr d_adv d_rsp d_got]; [|reflexivity].
-          exists ev. repeat split; assumption || reflexivity.
-      + inversion Hr; subst. exact Hm.
-    - destruct e; cbn [bind] in Hr; try discriminate; inversion Hr; subst; exact Hm. }
-  destruct (ev_pdu ev) eqn:Ep.
-  - exact (ADV true AdvInd eq_refl eq_refl Hh).
-  - exact (ADV false AdvNonconn eq_refl eq_refl Hh).
-  - destruct (from_bytes urlnorm (ev_data ev)) as [l|e] eqn:Ef.
-    + cbn [bind] in Hh. destruct (find_dev (ev_addr ev) db) as [dev|] eqn:Efd.
-      * destruct (d_got dev); inversion Hh; subst; cbn [fst]; [exact Hm|].
-        apply Forall_update_dev; [exact Hm|]. intros d Hd Ha.
-        unfold set_scan_rsp. destruct (d_got d) eqn:G; [exact Hd|].
-        destruct Hd as [H1 H2]. split; [exact H1|]. cbn [d_rsp d_got d_addr]. split; [reflexivity|].
-        exists ev. auto.
-      * inversion Hh; subst. exact Hm.
-    + destruct e; cbn [bind] in Hh; try discriminate; inversion Hh; subst; exact Hm.
-  - inversion Hh; subst. exact Hm.
+  unfold handle in Hh.
+  destruct (parse_adv urlnorm (ev_data ev)) as [[l|]|e] eqn:Ep; cbn [bind] in Hh;
+    [pose proof (parse_adv_some _ _ Ep) as Ef| |destruct (ev_pdu ev); try discriminate; inversion Hh; subst; exact Hm].
+  - destruct (ev_pdu ev) eqn:Epdu.
+    + destruct (filter_is flt (ev_addr ev) || filter_none flt); [|inversion Hh; subst; exact Hm].
+      destruct (register _ _ _ _) as [db' r0] eqn:Er. inversion Hh; subst. cbn [fst].
+      refine (register_inv _ _ _ _ _ _ _ Hm _ Er). split; cbn [d_addr d_adv d_rsp d_got]; [|reflexivity].
+      exists ev. rewrite Epdu. auto.
+    + destruct (filter_is flt (ev_addr ev) || filter_none flt); [|inversion Hh; subst; exact Hm].
+      destruct (register _ _ _ _) as [db' r0] eqn:Er. inversion Hh; subst. cbn [fst].
+      refine (register_inv _ _ _ _ _ _ _ Hm _ Er). split; cbn [d_addr d_adv d_rsp d_got]; [|reflexivity].
+      exists ev. rewrite Epdu. auto.
+    + destruct (find_dev (ev_addr ev) db) as [dev|]; [|inversion Hh; subst; exact Hm].
+      destruct (d_got dev); inversion Hh; subst; cbn [fst]; [exact Hm|].
+      apply Forall_update_dev; [exact Hm|]. intros d Hd Ha.
+      unfold set_scan_rsp. destruct (d_got d) eqn:G; [exact Hd|].
+      destruct Hd as [H1 H2]. split; [exact H1|]. cbn [d_rsp d_got d_addr]. split; [reflexivity|].
+      exists ev. auto.
+    + inversion Hh; subst. exact Hm.
+  - destruct (ev_pdu ev); inversion Hh; subst; exact Hm.
 Qed.
 
-Lemma on_device_found_inv seen db ev r :
-  Forall (dev_ok seen) db -> on_device_found urlnorm filter updates db ev = Ok r ->
-  Forall (dev_ok (seen ++ [ev])) (fst r).
+Lemma on_device_found_inv seen now db ev r :
+  Forall (dev_ok seen) db -> on_device_found urlnorm flt updates now db ev = Ok r ->
+  Forall (dev_ok (seen ++ [ev])) (fst (fst r)).
 Proof.
   intros H Hr. unfold on_device_found in Hr.
-  destruct (handle urlnorm filter updates db ev) as [x|] eqn:Eh; [|discriminate]. cbn [bind] in Hr.
-  pose proof (timeouts_ok _ _ (handle_inv seen db ev x H Eh)) as T.
-  destruct (timeouts (fst x)) as [db2 ys]. inversion Hr; subst. exact T.
+  destruct (handle urlnorm flt updates now db ev) as [x|] eqn:Eh; [|discriminate]. cbn [bind] in Hr.
+  pose proof (timeouts_ok _ now _ (handle_inv seen now db ev x H Eh)) as T.
+  destruct (timeouts now (fst x)) as [db2 ys]. inversion Hr; subst. exact T.
 Qed.
 
-Lemma scan_inv evs : forall seen db r,
-  Forall (dev_ok seen) db -> scan urlnorm filter updates db evs = Ok r ->
-  Forall (dev_ok (seen ++ evs)) (fst r).
+Lemma scan_inv evs : forall clock seen db r,
+  Forall (dev_ok seen) db -> scan urlnorm flt updates clock db evs = Ok r ->
+  Forall (dev_ok (seen ++ evs)) (fst (fst r)).
 Proof.
-  induction evs as [|ev evs IH]; intros seen db r H Hr; cbn [scan] in Hr.
+  induction evs as [|ev evs IH]; intros clock seen db r H Hr; cbn [scan] in Hr.
   - inversion Hr; subst. rewrite app_nil_r. exact H.
-  - destruct (on_device_found urlnorm filter updates db ev) as [x|] eqn:Eo; [|discriminate].
-    cbn [bind] in Hr. destruct (scan urlnorm filter updates (fst x) evs) as [y|] eqn:Es; [|discriminate].
+  - destruct (on_device_found urlnorm flt updates (clock + ev_dt ev) db ev) as [x|] eqn:Eo; [|discriminate].
+    cbn [bind] in Hr.
+    destruct (scan urlnorm flt updates (clock + ev_dt ev) (fst (fst x)) evs) as [y|] eqn:Es; [|discriminate].
     cbn [bind] in Hr. inversion Hr; subst. cbn [fst].
     replace (seen ++ ev :: evs) with ((seen ++ [ev]) ++ evs) by (rewrite <- app_assoc; reflexivity).
-    apply (IH _ (fst x)); [apply (on_device_found_inv seen db ev x H Eo)|exact Es].
+    apply (IH (clock + ev_dt ev) (seen ++ [ev]) (fst (fst x))); [apply (on_device_found_inv seen _ db ev x H Eo)|exact Es].
 Qed.
 
-Lemma scan_stored_parsed evs r :
-  scan urlnorm filter updates [] evs = Ok r -> Forall (dev_ok evs) (fst r).
-Proof. intros H. apply (scan_inv evs [] [] r); [constructor|exact H]. Qed.
+Lemma scan_stored_parsed clock evs r :
+  scan urlnorm flt updates clock [] evs = Ok r -> Forall (dev_ok evs) (fst (fst r)).
+Proof. intros H. apply (scan_inv evs clock [] [] r); [constructor|exact H]. Qed.
+
+(** *** what is reported when *)
+
+(** every call, whatever the event: the sweep yields exactly the devices that are due
+    after the event was handled, and leaves no due device behind *)
+Lemma sweep_reports_due now db ev db2 ret ys :
+  on_device_found urlnorm flt updates now db ev = Ok (db2, ret, ys) ->
+  exists db1 app, handle urlnorm flt updates now db ev = Ok (db1, app)
+    /\ ys = map d_addr (filter (due now) db1)
+    /\ (forall y, In y ys -> In y ret)
+    /\ forallb (fun d => negb (due now d)) db2 = true.
+Proof.
+  unfold on_device_found. intros H.
+  destruct (handle urlnorm flt updates now db ev) as [[db1 app]|] eqn:Eh; [|discriminate].
+  cbn [bind fst snd] in H. rewrite timeouts_spec in H. inversion H; subst. clear H.
+  exists db1, app. split; [reflexivity|]. split; [reflexivity|]. split.
+  - intros y Hy. apply (fold_add_new_adds _ app y Hy).
+  - apply forallb_forall. intros x Hx. apply in_map_iff in Hx as (d & <- & _).
+    rewrite swept_not_due. reflexivity.
+Qed.
+
+(** [grows db db']: handling an event keeps every entry's address and reported flag and
+    may append one unreported entry with a new address *)
+Definition grows (db db' : list device) : Prop :=
+  map key db' = map key db
+  \/ exists a, map key db' = map key db ++ [(a, false)] /\ ~ In a (map d_addr db).
+
+Lemma register_grows now db d u db' r :
+  d_reported d = false -> register now db d u = (db', r) -> grows db db'.
+Proof.
+  intros Hd Hr. unfold register in Hr. destruct (find_dev (d_addr d) db) as [dev|] eqn:Ef.
+  - left. destruct (d_rssi dev =? d_rssi d); inversion Hr; subst; apply map_key_update; intros x.
+    + reflexivity.
+    + rewrite check_timeout_key. reflexivity.
+  - right. inversion Hr; subst. exists (d_addr d). split; [|apply find_dev_none, Ef].
+    rewrite map_app. cbn [map]. f_equal. unfold key. rewrite Hd. reflexivity.
+Qed.
+
+Lemma handle_grows now db ev r : handle urlnorm flt updates now db ev = Ok r -> grows db (fst r).
+Proof.
+  intros Hh. unfold handle in Hh.
+  destruct (parse_adv urlnorm (ev_data ev)) as [[l|]|e]; cbn [bind] in Hh;
+    [| destruct (ev_pdu ev); inversion Hh; left; reflexivity
+     | destruct (ev_pdu ev); try discriminate; inversion Hh; left; reflexivity].
+  destruct (ev_pdu ev).
+  - destruct (filter_is flt (ev_addr ev) || filter_none flt); [|inversion Hh; left; reflexivity].
+    destruct (register _ _ _ _) as [db' r0] eqn:Er. inversion Hh; subst. cbn [fst].
+    refine (register_grows _ _ _ _ _ _ _ Er). reflexivity.
+  - destruct (filter_is flt (ev_addr ev) || filter_none flt); [|inversion Hh; left; reflexivity].
+    destruct (register _ _ _ _) as [db' r0] eqn:Er. inversion Hh; subst. cbn [fst].
+    refine (register_grows _ _ _ _ _ _ _ Er). reflexivity.
+  - destruct (find_dev (ev_addr ev) db) as [dev|]; [|inversion Hh; left; reflexivity].
+    destruct (d_got dev); inversion Hh; subst; left; [reflexivity|]. cbn [fst].
+    apply map_key_update. apply set_scan_rsp_key.
+  - inversion Hh; left; reflexivity.
+Qed.
+
+(** [Inv R db]: addresses are unique and everything the sweep reported so far is marked *)
+Definition Inv (R : list N) (db : list device) : Prop :=
+  NoDup (map d_addr db) /\ forall a, In a R -> In (a, true) (map key db).
+
+Lemma grows_inv R db db' : grows db db' -> Inv R db -> Inv R db'.
+Proof.
+  intros G [ND HR]. destruct G as [E|(a & E & Na)]; split.
+  - rewrite map_addr_key, E, <- map_addr_key. exact ND.
+  - intros x Hx. rewrite E. apply HR, Hx.
+  - rewrite map_addr_key, E, map_app, <- map_addr_key. cbn [map fst].
+    apply NoDup_snoc; assumption.
+  - intros x Hx. rewrite E. apply in_or_app. left. apply HR, Hx.
+Qed.
+
+Lemma NoDup_map_filter {A B} (f : A -> B) (p : A -> bool) l : NoDup (map f l) -> NoDup (map f (filter p l)).
+Proof.
+  induction l as [|x l IH]; cbn [map filter]; [intros; constructor|]. intros H.
+  inversion H as [|? ? Hx Hl]; subst. destruct (p x); [|apply IH, Hl].
+  cbn [map]. constructor; [|apply IH, Hl]. intro Hin. apply Hx.
+  apply in_map_iff in Hin as (y & Ey & Hy). apply filter_In in Hy as [Hy _].
+  apply in_map_iff. exists y. auto.
+Qed.
+
+Lemma NoDup_addr_inj db d d' :
+  NoDup (map d_addr db) -> In d db -> In d' db -> d_addr d = d_addr d' -> d = d'.
+Proof.
+  induction db as [|x db IH]; intros ND H1 H2 E; [destruct H1|].
+  cbn [map] in ND. inversion ND as [|? ? Hx Hl]; subst.
+  destruct H1 as [<-|H1], H2 as [<-|H2]; [reflexivity| | |apply IH; assumption].
+  - exfalso. apply Hx. rewrite E. apply in_map, H2.
+  - exfalso. apply Hx. rewrite <- E. apply in_map, H1.
+Qed.
+
+Lemma sweep_step R now db1 :
+  Inv R db1 -> NoDup R ->
+  let ys := snd (timeouts now db1) in
+  Inv (R ++ ys) (fst (timeouts now db1)) /\ NoDup (R ++ ys).
+Proof.
+  intros [ND HR] NR. rewrite timeouts_spec. cbn [fst snd].
+  set (g := fun d => if due now d then mark_reported (check_timeout now d) else check_timeout now d).
+  assert (Ga : forall d, d_addr (g d) = d_addr d).
+  { intros d. unfold g. destruct (due now d); [cbn [mark_reported d_addr]|]; apply check_timeout_addr. }
+  assert (Gaddr : map d_addr (map g db1) = map d_addr db1).
+  { rewrite map_map. apply map_ext, Ga. }
+  split; [split|].
+  - rewrite Gaddr. exact ND.
+  - intros a Ha. apply in_app_or in Ha as [Ha|Ha].
+    + specialize (HR a Ha). apply in_map_iff in HR as (d & Ek & Hd).
+      apply in_map_iff. exists (g d). split; [|apply in_map, Hd].
+      unfold key in *. rewrite Ga. inversion Ek as [[E1 E2]]. rewrite E1. f_equal. unfold g.
+      destruct (due now d); [cbn [mark_reported d_reported]; congruence|]. rewrite check_timeout_reported. congruence.
+    + apply in_map_iff in Ha as (d & <- & Hd). apply filter_In in Hd as [Hd Du].
+      apply in_map_iff. exists (g d). split; [|apply in_map, Hd].
+      unfold key. rewrite Ga. unfold g. rewrite Du. reflexivity.
+  - apply NoDup_app_intro.
+    + exact NR.
+    + apply NoDup_map_filter, ND.
+    + intros a Ha Hy. specialize (HR a Ha). apply in_map_iff in HR as (d & Ek & Hd).
+      apply in_map_iff in Hy as (d' & Ea & Hd'). apply filter_In in Hd' as [Hd' Du].
+      inversion Ek as [[E1 E2]]. assert (d = d') by (apply (NoDup_addr_inj db1); congruence). subst d'.
+      unfold due in Du. rewrite E2 in Du. cbn [negb] in Du. rewrite andb_false_r in Du. discriminate.
+Qed.
+
+(** over ANY timed sequence, from any database with unique addresses whose reported
+    devices are [R]: no address is reported by the sweep twice *)
+Lemma scan_reports_once evs : forall clock db R r,
+  Inv R db -> NoDup R -> scan urlnorm flt updates clock db evs = Ok r ->
+  NoDup (R ++ concat (snd r)).
+Proof.
+  induction evs as [|ev evs IH]; intros clock db R r I NR Hr; cbn [scan] in Hr.
+  - inversion Hr; subst. cbn [snd concat]. rewrite app_nil_r. exact NR.
+  - unfold on_device_found in Hr.
+    destruct (handle urlnorm flt updates (clock + ev_dt ev) db ev) as [x|] eqn:Eh; [|discriminate].
+    cbn [bind] in Hr.
+    pose proof (grows_inv R _ _ (handle_grows _ _ _ _ Eh) I) as I1.
+    destruct (sweep_step R (clock + ev_dt ev) (fst x) I1 NR) as [I2 N2]. cbv zeta in I2, N2.
+    destruct (timeouts (clock + ev_dt ev) (fst x)) as [db2 ys]. cbn [fst snd bind] in *.
+    destruct (scan urlnorm flt updates (clock + ev_dt ev) db2 evs) as [y|] eqn:Es; [|discriminate].
+    cbn [bind] in Hr. inversion Hr; subst. cbn [snd concat]. rewrite app_assoc.
+    exact (IH _ _ _ _ I2 N2 Es).
+Qed.
+
+Lemma scan_reports_once_from_empty clock evs r :
+  scan urlnorm flt updates clock [] evs = Ok r -> NoDup (concat (snd r)).
+Proof.
+  intros H. apply (scan_reports_once evs clock [] [] r); [split; [constructor|intros a []]|constructor|exact H].
+Qed.
 
 End ScanProofs.
